@@ -77,6 +77,13 @@ func (c13) Run(t *tape.Tape, tier Tier) *Result {
 	if tier == Thorough {
 		cfg.MaxDepth, cfg.MaxNodes = 6, 16
 	}
+	// 1 run in 5: arbitrary strings (marker runes, newlines anywhere, empty,
+	// invalid UTF-8), local semantics only -- the statement about Join's text
+	// and about Is/As on the tree does not restrict the branch messages
+	hostileLocal := t.Draw(5) == 3
+	if hostileLocal {
+		cfg.Alpha = gen.Hostile
+	}
 	g := gen.New(t, cfg)
 	spec := g.Tree()
 	if !spec.HasKind(isMultiKind) {
@@ -116,10 +123,14 @@ func (c13) Run(t *tape.Tape, tier Tier) *Result {
 		res.Desc.Tree = fmt.Sprintf("wide multi-cause tree with %d nodes", len(want))
 	}
 	res.Kinds = kindsOf(spec)
-	m1, p := obs.Encode(e0)
-	if p != "" {
-		res.add(Violation{Prop: "C13", Oracle: "encode-at-origin", Culprit: typeOfLayer(want[0]), Expected: "no panic", Observed: p})
-		return res
+	var m1 []byte
+	if !hostileLocal {
+		var p string
+		m1, p = obs.Encode(e0)
+		if p != "" {
+			res.add(Violation{Prop: "C13", Oracle: "encode-at-origin", Culprit: typeOfLayer(want[0]), Expected: "no panic", Observed: p})
+			return res
+		}
 	}
 	allRefs := refPool(t, g, b, spec, e0, 2)
 	// Is() on multi-cause trees is expensive in the library itself (every
@@ -205,7 +216,11 @@ func (c13) Run(t *tape.Tape, tier Tier) *Result {
 	route := drawRoute(t, nproc, 5)
 	res.Desc.Routes = []string{routeString(append([]int{0}, route...))}
 	sim.DupNum = 0
-	sim.Send(0, 1, []int{0}, route, m1)
+	if !hostileLocal {
+		sim.Send(0, 1, []int{0}, route, m1)
+	} else {
+		res.count("hostile-local", 1)
+	}
 	maxBranches := 0
 	for _, n := range want {
 		if n.Multi > maxBranches {
@@ -385,7 +400,7 @@ func (c13) Run(t *tape.Tape, tier Tier) *Result {
 	sim.Run()
 	res.Stats = sim.Stats
 	res.LogDigest = sim.LogDigest()
-	res.Nontrivial = maxBranches >= 2 && sim.Stats.Deliveries >= 1
+	res.Nontrivial = maxBranches >= 2 && (sim.Stats.Deliveries >= 1 || hostileLocal)
 	res.Key = spec.Shape() + "|" + profKey
 	return res
 }
